@@ -183,19 +183,30 @@ class Client:
         self.code_api = []
         self.helper = None
         self.fired = []            # automat transitions of the current step
+        self.statuses = []         # WormholeStatus updates as reported: [conn, key, code, events seen so far]
         with pinned_urandom(side):
             if mode == "delegated":
                 self.delegate = Delegate(self)
                 self.w = wormhole.create(appid, RELAY_URL, reactor, versions=versions or {},
-                                         delegate=self.delegate)
+                                         delegate=self.delegate, on_status_update=self._status)
             else:
                 self.w = wormhole.create(appid, RELAY_URL, reactor, versions=versions or {},
-                                         dilation=dilation or None)
+                                         dilation=dilation or None, on_status_update=self._status)
         self.boss = self.w._boss
         self.side = self.boss._side
         self._install_tracers()
         if mode == "deferred":
             self._eager()
+
+    def _status(self, st):
+        def n(x):
+            return {"AllegedSharedKey": "alleged", "ConfirmedKey": "confirmed", "NoKey": "nokey", "NoCode": "nocode",
+                    "AllocatedCode": "allocated", "ConsumedCode": "consumed"}.get(type(x).__name__, type(x).__name__.lower())
+        self.statuses.append([n(st.mailbox_connection), n(st.peer_key), n(st.code),
+                              len([k for k, _ in self.events if not k.endswith("!")])])
+
+    def status(self):
+        return self.statuses[-1][:3] if self.statuses else ["disconnected", "nokey", "nocode"]
 
     def ev(self, kind, value):
         self.events.append((kind, value))
